@@ -754,6 +754,9 @@ class Engine:
             inner = v.ty.args[0]
             self.oblige("None where %r is required" % (t_,), "safety", z3.Not(T.opt_is_none(v.ty, v.t)))
             return self.coerce(V(inner, T.opt_val(v.ty, v.t)), t_)
+        if v.ty.kind == "tuple" and t_.kind == "tuple" and len(v.ty.args) == len(t_.args):
+            parts = [self.coerce(V(a, T.tuple_get(v.ty, v.t, i)), b) for i, (a, b) in enumerate(zip(v.ty.args, t_.args))]
+            return V(t_, T.tuple_mk(t_, [p_.t for p_ in parts]))
         if v.ty.kind == "ref" and t_.kind == "ref":
             return V(t_, v.t)      # static up/down-cast; dynamic class is tracked by typeof
         if v.ty.kind in ("list", "seq") and t_.kind in ("list", "seq") and v.ty.kind == t_.kind and sort_of(v.ty.elem) == sort_of(t_.elem) \
